@@ -37,6 +37,7 @@ type InstanceSpec struct {
 	MaxAlloc    int              `json:"max_alloc,omitempty"`
 	ConcCap     int              `json:"conc_cap,omitempty"`
 	MaxDecisions int             `json:"max_decisions,omitempty"`
+	MaxPaths     int             `json:"max_paths,omitempty"`
 	SchedSymbolic bool           `json:"sched_symbolic,omitempty"`
 	ClockSymbolic bool           `json:"clock_symbolic,omitempty"`
 	ConcSample    bool           `json:"conc_sample,omitempty"`
@@ -467,6 +468,9 @@ func runInstance(l *Loaded, spec *Spec, in instance, stubs map[string]*ssa.Funct
 	}
 	if in.spec.MaxDecisions > 0 {
 		m.maxDecisions = in.spec.MaxDecisions
+	}
+	if in.spec.MaxPaths > 0 {
+		m.maxPaths = in.spec.MaxPaths
 	}
 	m.schedSymbolicDefault = in.spec.SchedSymbolic
 	m.clockSymbolic = in.spec.ClockSymbolic
